@@ -142,6 +142,42 @@ Definition spec_negotiate (h : option str) : option str :=
                end
   end.
 
+(* ---- what the property's statement demands of the negotiation: "the client's highest-q supported type"; WHICH of several
+   supported types with the same highest q is chosen is not specified.  a = the observed answer (None = the call raised) ---- *)
+Definition item_supported (x : str * (N * N)) : bool :=
+  mem (canonical content_type_synonyms (fst x)) supported_content_types.
+Definition supported_items (items : list (str * (N * N))) : list (str * (N * N)) := filter item_supported items.
+(* t is one of the supported items and its q is >= the q of every supported item *)
+Definition is_top (sup : list (str * (N * N))) (t : str * (N * N)) : bool := forallb (fun u => q_geb (snd t) (snd u)) sup.
+Definition negotiate_acceptable (h : option str) (a : option str) : bool :=
+  match h with
+  | None | Some [] => match a with Some x => str_eqb x default_content_type | None => false end
+  | Some hs =>
+      match header_items hs with
+      | None => match a with None => true | Some _ => false end        (* malformed q-value: the implementation raises *)
+      | Some items =>
+          match a with
+          | None => false
+          | Some x =>
+              match supported_items items with
+              | [] => str_eqb x default_content_type
+              | sup => existsb (fun t => str_eqb x (canonical content_type_synonyms (fst t)) && is_top sup t) sup
+              end
+          end
+      end
+  end.
+(* no two supported items have equal q: then negotiate_acceptable determines the answer (negotiate_acceptable_unique) *)
+Fixpoint no_ties (l : list (str * (N * N))) : bool :=
+  match l with
+  | [] => true
+  | x :: l' => forallb (fun y => negb (q_geb (snd x) (snd y) && q_geb (snd y) (snd x))) l' && no_ties l'
+  end.
+Definition header_no_ties (h : option str) : bool :=
+  match h with
+  | None => true
+  | Some hs => match header_items hs with Some items => no_ties (supported_items items) | None => true end
+  end.
+
 (* ---- driver entry ----
    case = [records; invalid chars; queries [[uri; is_pred]]; headers [opt str];
            per query: what converter.expand_all(converter.compress(uri)) answers on the implementation (None when compress gives None)
@@ -189,7 +225,12 @@ Definition P_C18 (k : scase) (o : val) : bool :=
       forallb (fun qa : ((str * bool) * option (list str)) * val => let '(qr, a) := qa in
                  let expected := vsorted (rel_answer (inv_of k) (snd (fst qr)) (snd qr)) in
                  val_eqb a (VList [expected; expected; expected; expected])) (combine (combine (sc_queries k) (sc_renderings k)) qa)
-      && forallb (fun ha : option str * val => let '(h, a) := ha in val_eqb a (vopt VStr (spec_negotiate h))) (combine (sc_headers k) ha)
+      (* the negotiated type: any supported type of highest q (ties are not decided by the property's statement) *)
+      && forallb (fun ha : option str * val => let '(h, a) := ha in
+                    match a with
+                    | VNone => negotiate_acceptable h None
+                    | VSome (VStr x) => negotiate_acceptable h (Some x)
+                    | _ => false end) (combine (sc_headers k) ha)
   | _ => false
   end.
 Definition header_ok (h : option str) : bool :=
